@@ -79,19 +79,64 @@ func init() {
 			}
 			tried, sat := 0, 0
 			if !it.Accept {
+				// how many decompositions does the circuit ask for, and how wide is each?  (an honest run with a counting wrapper)
+				var widths []int
+				r1csSolved(ccs, assign, mod, replaceHint(nBitsHint, func(m *big.Int, in []*big.Int, res []*big.Int) error {
+					widths = append(widths, len(res))
+					return nBitsHint(m, in, res)
+				}))
+				if len(widths) == 0 {
+					widths = []int{nd}
+				}
+				// candidate lies: (a) every vector of F_47^nd on the low positions, zeros above, told to EVERY decomposition (the gadget as written
+				// asks for exactly nd digits once); (b) surgical lies: one decomposition only is answered dishonestly, all others honestly, with
+				// every F_47 vector on its low nd positions and every BOOLEAN vector over its full width (a decomposition wider than the
+				// range it is meant to enforce has several boolean answers: v, v + p, ...)
+				type lie struct {
+					call   int // -1 = every call
+					digits []int64
+				}
+				var lies []lie
 				total := 1
 				for i := 0; i < nd; i++ {
 					total *= 47
 				}
-				for n := 0; n < total && r.OK; n++ {
-					digits := make([]int64, nd)
-					x := n
-					for i := range digits {
-						digits[i] = int64(x % 47)
-						x /= 47
+				vec := func(n, base, w int) []int64 {
+					d := make([]int64, w)
+					for i := range d {
+						d[i] = int64(n % base)
+						n /= base
 					}
+					return d
+				}
+				for n := 0; n < total; n++ {
+					lies = append(lies, lie{-1, vec(n, 47, nd)})
+				}
+				if len(widths) > 1 || widths[0] != nd {
+					for c, w := range widths {
+						for n := 0; n < total; n++ {
+							lies = append(lies, lie{c, vec(n, 47, nd)})
+						}
+						if w > nd && w <= 12 {
+							for n := 0; n < 1<<w; n++ {
+								lies = append(lies, lie{c, vec(n, 2, w)})
+							}
+						}
+					}
+				}
+				for _, l := range lies {
+					if !r.OK {
+						break
+					}
+					digits, target := l.digits, l.call
 					for _, iv := range invC {
-						opts := []backend.ProverOption{replaceHint(nBitsHint, func(_ *big.Int, in []*big.Int, res []*big.Int) error {
+						call := 0
+						opts := []backend.ProverOption{replaceHint(nBitsHint, func(m *big.Int, in []*big.Int, res []*big.Int) error {
+							me := call
+							call++
+							if target >= 0 && me != target {
+								return nBitsHint(m, in, res)
+							}
 							for i := range res {
 								if i < len(digits) {
 									res[i].SetInt64(digits[i])
@@ -112,7 +157,7 @@ func init() {
 						if r1csSolved(ccs, assign, mod, opts...) == nil {
 							sat++
 							r.OK = false
-							r.Detail = fmt.Sprintf("%s gadget as R1CS over F_47: tuple %v, which GadgetTiny.tla rejects, is SATISFIED when the prover supplies digits %v and is-zero inverse %d", cs.Kind, it.T, digits, iv)
+							r.Detail = fmt.Sprintf("%s gadget as R1CS over F_47: tuple %v, which GadgetTiny.tla rejects, is SATISFIED when the prover answers decomposition %d (of %d, widths %v; -1 = all) with digits %v and is-zero inverse %d", cs.Kind, it.T, target, len(widths), widths, digits, iv)
 							break
 						}
 					}
